@@ -222,6 +222,14 @@ func constInt(v ssa.Value) (int64, bool) {
 				return x - y, true
 			case token.MUL:
 				return x * y, true
+			case token.OR:
+				return x | y, true
+			case token.AND:
+				return x & y, true
+			case token.SHL:
+				if y >= 0 && y < 63 {
+					return x << uint(y), true
+				}
 			}
 		}
 		return 0, false
